@@ -14,22 +14,30 @@
 (*   PublishBeforeInit      rd.stream is replaced before Initialize() (O3)      *)
 (*   ContinueAfter405       a non-PUT request is answered 405 and then applied  *)
 (*   ApplyNoBackup          /apply_flows has no Backup/Restore at all           *)
+(*   MetricsToDefaultPath   a pushed metrics config is written over the gateway's *)
+(*                          built-in default metrics file when the user's file   *)
+(*                          does not exist; that file is not part of the backup  *)
+(*   NoReloadAfterRestore   (never in the tree; sensitivity of BehavAtomic) the  *)
+(*                          restored files are not loaded again                 *)
 EXTENDS CfgUpdateP, Sequences
 
 CONSTANTS Paths,      \* every path of the configuration tree the model knows
           Cat,        \* Paths -> 1..5 : flows, quotas, path params, gateway config, metrics config (save order)
           Txns,       \* probe transaction ids
-          RestoreWrongDirection, PublishBeforeInit, ContinueAfter405, ApplyNoBackup
+          RestoreWrongDirection, PublishBeforeInit, ContinueAfter405, ApplyNoBackup, NoReloadAfterRestore,
+          MetricsToDefaultPath
 
-VARIABLES c, pc, nxt, sigc, after, round, disk, backup, active, todo, todoR, sub, hapLeft,
+VARIABLES c, pc, nxt, sigc, after, round, disk, backup, active, todo, todoR, sub, wp, hapLeft,
           cnt, fired, faultPending, open, closed, p, viol
 
-ivars == <<c, pc, nxt, sigc, after, round, disk, backup, active, todo, todoR, sub, hapLeft,
+ivars == <<c, pc, nxt, sigc, after, round, disk, backup, active, todo, todoR, sub, wp, hapLeft,
            cnt, fired, faultPending, open, closed, p, viol>>
 
 Flows == {q \in Paths : Cat[q] = 1}
 Gw == CHOOSE q \in Paths : Cat[q] = 4
 Mx == CHOOSE q \in Paths : Cat[q] = 5
+Dx == CHOOSE q \in Paths : Cat[q] = 6          \* the built-in default metrics file: read when the user's file is absent
+Managed == {q \in Paths : Cat[q] <= 5}         \* what Backup / Restore / CleanAll look at
 Points == {"fs.store", "fs.remove", "hdm.initialize", "haproxy"}
 
 Total(d) == [q \in Paths |-> At(d, q)]
@@ -46,7 +54,7 @@ NoCase == [endpoint |-> "configuration", method |-> "PUT", disk |-> << >>, paylo
 Init ==
     /\ c = NoCase /\ pc = "pick" /\ nxt = "" /\ sigc = 0 /\ after = "" /\ round = 1
     /\ disk = Total(<< >>) /\ backup = Total(<< >>) /\ active = EmptyEngine
-    /\ todo = {} /\ todoR = {} /\ sub = "" /\ hapLeft = 0
+    /\ todo = {} /\ todoR = {} /\ sub = "" /\ wp = "" /\ hapLeft = 0
     /\ cnt = [pt \in Points |-> 0] /\ fired = FALSE /\ faultPending = FALSE
     /\ open = {} /\ closed = {}
     /\ p = PStart(Flows, NoCase) /\ viol = {}
@@ -55,7 +63,7 @@ Init ==
 Load(cs) ==
     /\ c' = cs /\ pc' = "idle" /\ nxt' = "" /\ sigc' = 0 /\ after' = "" /\ round' = 1
     /\ disk' = Total(cs.disk) /\ backup' = Total(<< >>) /\ active' = Built(Beh(Flows, cs.disk))
-    /\ todo' = {} /\ todoR' = {} /\ sub' = "" /\ hapLeft' = 0
+    /\ todo' = {} /\ todoR' = {} /\ sub' = "" /\ wp' = "" /\ hapLeft' = 0
     /\ cnt' = [pt \in Points |-> 0] /\ fired' = FALSE /\ faultPending' = FALSE
     /\ open' = {} /\ closed' = {}
     /\ p' = PStart(Flows, cs) /\ viol' = {}
@@ -80,14 +88,14 @@ HasBackup == ~(ApplyEP /\ ApplyNoBackup)
 \* ---------------------------------------------------------------- observable events
 Call ==
     /\ pc = "idle" /\ pc' = "start" /\ p' = PAfterCall(p)
-    /\ UNCHANGED <<c, nxt, sigc, after, round, disk, backup, active, todo, todoR, sub, hapLeft, viol, open, closed>> /\ NoHit
+    /\ UNCHANGED <<c, nxt, sigc, after, round, disk, backup, active, todo, todoR, sub, wp, hapLeft, viol, open, closed>> /\ NoHit
 
 ProbeCore(k, ph) ==
     /\ Note(ProbeVerdict(p, ph, k, Observed))
     /\ p' = PAfterProbe(p, ph, k, Observed)
     /\ open' = IF ph = "req" THEN open \cup {k} ELSE open \ {k}
     /\ closed' = IF ph = "req" THEN closed ELSE closed \cup {k}
-    /\ UNCHANGED <<c, pc, nxt, sigc, after, round, disk, backup, active, todo, todoR, sub, hapLeft>> /\ NoHit
+    /\ UNCHANGED <<c, pc, nxt, sigc, after, round, disk, backup, active, todo, todoR, sub, wp, hapLeft>> /\ NoHit
 
 Probe(k, ph) ==
     /\ IF ph = "req" THEN k \notin open \cup closed ELSE k \in open
@@ -95,21 +103,21 @@ Probe(k, ph) ==
 
 FaultEv ==
     /\ faultPending /\ faultPending' = FALSE /\ p' = PAfterFault(p)
-    /\ UNCHANGED <<c, pc, nxt, sigc, after, round, disk, backup, active, todo, todoR, sub, hapLeft, cnt, fired, viol, open, closed>>
+    /\ UNCHANGED <<c, pc, nxt, sigc, after, round, disk, backup, active, todo, todoR, sub, wp, hapLeft, cnt, fired, viol, open, closed>>
 
 Signal ==
     /\ pc = "signal" /\ Quiet /\ pc' = nxt /\ p' = PAfterStatus(p, sigc)
-    /\ UNCHANGED <<c, nxt, sigc, after, round, disk, backup, active, todo, todoR, sub, hapLeft, viol, open, closed>> /\ NoHit
+    /\ UNCHANGED <<c, nxt, sigc, after, round, disk, backup, active, todo, todoR, sub, wp, hapLeft, viol, open, closed>> /\ NoHit
 
 Reply ==
     /\ pc = "reply" /\ Quiet /\ pc' = "done"
     /\ Note(ReplyVerdict(p, p.code, disk, TreeOf(disk)))
     /\ p' = PAfterReply(p, p.code)
-    /\ UNCHANGED <<c, nxt, sigc, after, round, disk, backup, active, todo, todoR, sub, hapLeft, open, closed>> /\ NoHit
+    /\ UNCHANGED <<c, nxt, sigc, after, round, disk, backup, active, todo, todoR, sub, wp, hapLeft, open, closed>> /\ NoHit
 
 \* ---------------------------------------------------------------- handler steps (internal unless noted)
 Step(newpc) == pc' = newpc /\ UNCHANGED <<nxt, sigc>>
-Same == UNCHANGED <<c, after, round, disk, backup, active, todo, todoR, sub, hapLeft>>
+Same == UNCHANGED <<c, after, round, disk, backup, active, todo, todoR, sub, wp, hapLeft>>
 
 MethodOK  == pc = "start" /\ c.method = "PUT" /\ Step("decode") /\ Same /\ NoHit /\ NoObs
 Method405 == pc = "start" /\ c.method # "PUT"
@@ -119,14 +127,14 @@ DecodeBad == pc = "decode" /\ ~c.decodable /\ GoSignal(400, "reply") /\ Same /\ 
 DecodeOK  == pc = "decode" /\ c.decodable /\ Step(IF HasBackup THEN "backup" ELSE "parse") /\ Same /\ NoHit /\ NoObs
 
 Backup == /\ pc = "backup" /\ Step("parse") /\ backup' = disk
-          /\ UNCHANGED <<c, after, round, disk, active, todo, todoR, sub, hapLeft>> /\ NoHit /\ NoObs
+          /\ UNCHANGED <<c, after, round, disk, active, todo, todoR, sub, wp, hapLeft>> /\ NoHit /\ NoObs
 
 ParseBad == pc = "parse" /\ c.badb64 # {} /\ GoSignal(400, "reply") /\ Same /\ NoHit /\ NoObs
 ParseOK  == /\ pc = "parse" /\ c.badb64 = {}
             /\ IF ApplyEP
-               THEN Step("clean") /\ todo' = {q \in Paths : disk[q] # "none" \/ Cat[q] >= 4}
+               THEN Step("clean") /\ todo' = {q \in Managed : disk[q] # "none" \/ Cat[q] >= 4}
                ELSE Step("save") /\ todo' = DOMAIN c.payload
-            /\ UNCHANGED <<c, after, round, disk, backup, active, todoR, sub, hapLeft>> /\ NoHit /\ NoObs
+            /\ UNCHANGED <<c, after, round, disk, backup, active, todoR, sub, wp, hapLeft>> /\ NoHit /\ NoObs
 
 \* /apply_flows: CleanAll - directories first (any order), then the two files      [event fs remove q]
 CleanRemove(q) ==
@@ -138,18 +146,19 @@ CleanRemove(q) ==
             /\ UNCHANGED <<disk, todo>>
        ELSE /\ disk' = [disk EXCEPT ![q] = "none"] /\ todo' = todo \ {q}
             /\ UNCHANGED <<pc, nxt, sigc, after>>
-    /\ UNCHANGED <<c, round, backup, active, todoR, sub, hapLeft>> /\ NoObs
+    /\ UNCHANGED <<c, round, backup, active, todoR, sub, wp, hapLeft>> /\ NoObs
 CleanDone ==
     /\ pc = "clean" /\ Quiet /\ todo = {} /\ Step("save") /\ todo' = DOMAIN c.payload
-    /\ UNCHANGED <<c, after, round, disk, backup, active, todoR, sub, hapLeft>> /\ NoHit /\ NoObs
+    /\ UNCHANGED <<c, after, round, disk, backup, active, todoR, sub, wp, hapLeft>> /\ NoHit /\ NoObs
 
 \* storeFileOnDisk = cleanUpFile (error ignored) then create+write                 [events fs remove q, fs store q]
 NextToSave(q) == q \in todo /\ \A r \in todo : Cat[q] <= Cat[r]
+Resolve(q) == IF Cat[q] = 5 /\ MetricsToDefaultPath /\ disk[Mx] = "none" THEN Dx ELSE q   \* path the file is written to
 SaveRemove(q) ==
     /\ pc = "save" /\ Quiet /\ sub = "" /\ NextToSave(q)
     /\ Hit("fs.remove")
-    /\ disk' = IF Fires("fs.remove") THEN disk ELSE [disk EXCEPT ![q] = "none"]
-    /\ sub' = q
+    /\ disk' = IF Fires("fs.remove") THEN disk ELSE [disk EXCEPT ![Resolve(q)] = "none"]
+    /\ sub' = q /\ wp' = Resolve(q)
     /\ UNCHANGED <<c, pc, nxt, sigc, after, round, backup, active, todo, todoR, hapLeft>> /\ NoObs
 SaveStore(q) ==
     /\ pc = "save" /\ Quiet /\ sub = q /\ q \in todo
@@ -157,13 +166,13 @@ SaveStore(q) ==
     /\ IF Fires("fs.store")
        THEN /\ GoSignal(500, IF HasBackup THEN "restore" ELSE "reply") /\ after' = "reply"
             /\ UNCHANGED <<disk, todo>>
-       ELSE /\ disk' = [disk EXCEPT ![q] = c.payload[q]] /\ todo' = todo \ {q}
+       ELSE /\ disk' = [disk EXCEPT ![wp] = c.payload[q]] /\ todo' = todo \ {q}
             /\ UNCHANGED <<pc, nxt, sigc, after>>
-    /\ sub' = ""
+    /\ sub' = "" /\ wp' = ""
     /\ UNCHANGED <<c, round, backup, active, todoR, hapLeft>> /\ NoObs
 SaveDone ==
     /\ pc = "save" /\ Quiet /\ todo = {} /\ sub = "" /\ Step("validate")
-    /\ UNCHANGED <<c, after, round, disk, backup, active, todo, todoR, sub, hapLeft>> /\ NoHit /\ NoObs
+    /\ UNCHANGED <<c, after, round, disk, backup, active, todo, todoR, sub, wp, hapLeft>> /\ NoHit /\ NoObs
 
 \* reloadFlows: dry-run validation, build+switch, health check, HAProxy endpoints, metrics reload
 Valid == /\ \A f \in Flows : disk[f] \notin {"bad", "junk"}
@@ -178,44 +187,45 @@ Fail == IF round = 1
 ValidateOK  == pc = "validate" /\ Quiet /\ Valid /\ Step(IF PublishBeforeInit THEN "publish0" ELSE "init")
                /\ Same /\ NoHit /\ NoObs
 ValidateBad == pc = "validate" /\ Quiet /\ ~Valid /\ Fail
-               /\ UNCHANGED <<c, round, disk, backup, active, todo, todoR, sub, hapLeft>> /\ NoHit /\ NoObs
+               /\ UNCHANGED <<c, round, disk, backup, active, todo, todoR, sub, wp, hapLeft>> /\ NoHit /\ NoObs
 
 \* pinned tree: the new, still empty engine becomes the active one first           [event hook published]
 PublishUnbuilt ==
     /\ pc = "publish0" /\ Step("init") /\ active' = EmptyEngine
-    /\ UNCHANGED <<c, after, round, disk, backup, todo, todoR, sub, hapLeft>> /\ NoHit /\ NoObs
+    /\ UNCHANGED <<c, after, round, disk, backup, todo, todoR, sub, wp, hapLeft>> /\ NoHit /\ NoObs
 BuildInit ==
     /\ pc = "init" /\ Hit("hdm.initialize")
     /\ IF Fires("hdm.initialize")
        THEN Fail /\ UNCHANGED active
        ELSE /\ Step("hookinit") /\ after' = after
             /\ active' = IF PublishBeforeInit THEN Built(Beh(Flows, disk)) ELSE active
-    /\ UNCHANGED <<c, round, disk, backup, todo, todoR, sub, hapLeft>> /\ NoObs
+    /\ UNCHANGED <<c, round, disk, backup, todo, todoR, sub, wp, hapLeft>> /\ NoObs
 HookInitialized ==                                                                \* [event hook initialized]
     /\ pc = "hookinit" /\ Step(IF PublishBeforeInit THEN "health" ELSE "swap") /\ Same /\ NoHit /\ NoObs
 Publish ==                                                                         \* [event hook published]
     /\ pc = "swap" /\ Step("health") /\ active' = Built(Beh(Flows, disk))
-    /\ UNCHANGED <<c, after, round, disk, backup, todo, todoR, sub, hapLeft>> /\ NoHit /\ NoObs
+    /\ UNCHANGED <<c, after, round, disk, backup, todo, todoR, sub, wp, hapLeft>> /\ NoHit /\ NoObs
 
 HealthFail ==
     /\ pc = "health" /\ ~fired /\ c.fault.point = "health"
     /\ fired' = TRUE /\ faultPending' = TRUE /\ UNCHANGED cnt /\ Fail
-    /\ UNCHANGED <<c, round, disk, backup, active, todo, todoR, sub, hapLeft>> /\ NoObs
+    /\ UNCHANGED <<c, round, disk, backup, active, todo, todoR, sub, wp, hapLeft>> /\ NoObs
 HealthOK ==
     /\ pc = "health" /\ ~(~fired /\ c.fault.point = "health") /\ Step("haproxy")
     /\ hapLeft' = 2 * Cardinality({f \in Flows : disk[f] # "none"})
-    /\ UNCHANGED <<c, after, round, disk, backup, active, todo, todoR, sub>> /\ NoHit /\ NoObs
+    /\ UNCHANGED <<c, after, round, disk, backup, active, todo, todoR, sub, wp>> /\ NoHit /\ NoObs
 
 HapCall ==                                                                         \* [event haproxy n code]
     /\ pc = "haproxy" /\ Quiet /\ hapLeft > 0 /\ Hit("haproxy")
     /\ IF Fires("haproxy") THEN Fail /\ UNCHANGED hapLeft
        ELSE hapLeft' = hapLeft - 1 /\ UNCHANGED <<pc, nxt, sigc, after>>
-    /\ UNCHANGED <<c, round, disk, backup, active, todo, todoR, sub>> /\ NoObs
+    /\ UNCHANGED <<c, round, disk, backup, active, todo, todoR, sub, wp>> /\ NoObs
 HapDone == pc = "haproxy" /\ Quiet /\ hapLeft = 0 /\ Step("metrics") /\ Same /\ NoHit /\ NoObs
 
-MetricsBad == pc = "metrics" /\ disk[Mx] = "mbad" /\ Fail
-              /\ UNCHANGED <<c, round, disk, backup, active, todo, todoR, sub, hapLeft>> /\ NoHit /\ NoObs
-MetricsOK  == /\ pc = "metrics" /\ disk[Mx] # "mbad"
+EffMetrics == IF disk[Mx] # "none" THEN disk[Mx] ELSE disk[Dx]     \* the user's file if it exists, else the built-in default
+MetricsBad == pc = "metrics" /\ EffMetrics = "mbad" /\ Fail
+              /\ UNCHANGED <<c, round, disk, backup, active, todo, todoR, sub, wp, hapLeft>> /\ NoHit /\ NoObs
+MetricsOK  == /\ pc = "metrics" /\ EffMetrics # "mbad"
               /\ IF round = 1 THEN GoSignal(200, "reply") ELSE EndRound2
               /\ Same /\ NoHit /\ NoObs
 
@@ -223,18 +233,19 @@ MetricsOK  == /\ pc = "metrics" /\ disk[Mx] # "mbad"
 RestoreBegin ==
     /\ pc = "restore" /\ Quiet /\ Step("restoring")
     /\ IF RestoreWrongDirection
-       THEN /\ todo' = {q \in Paths : disk[q] # "none" /\ disk[q] # backup[q]}    \* rewrites what is there now
+       THEN /\ todo' = {q \in Managed : disk[q] # "none" /\ disk[q] # backup[q]}    \* rewrites what is there now
             /\ todoR' = {}
-       ELSE /\ todo' = {q \in Paths : backup[q] # "none" /\ disk[q] # backup[q]}  \* changed or removed files come back
-            /\ todoR' = {q \in Paths : backup[q] = "none" /\ disk[q] # "none"}    \* added files go away
-    /\ UNCHANGED <<c, after, round, disk, backup, active, sub, hapLeft>> /\ NoHit /\ NoObs
-AfterRestore == IF after = "reload2" THEN pc' = "validate" /\ round' = 2 ELSE pc' = "reply" /\ round' = round
+       ELSE /\ todo' = {q \in Managed : backup[q] # "none" /\ disk[q] # backup[q]}  \* changed or removed files come back
+            /\ todoR' = {q \in Managed : backup[q] = "none" /\ disk[q] # "none"}    \* added files go away
+    /\ UNCHANGED <<c, after, round, disk, backup, active, sub, wp, hapLeft>> /\ NoHit /\ NoObs
+AfterRestore == IF after = "reload2" /\ ~NoReloadAfterRestore
+                THEN pc' = "validate" /\ round' = 2 ELSE pc' = "reply" /\ round' = round
 RStoreRemove(q) ==
     /\ pc = "restoring" /\ Quiet /\ sub = "" /\ q \in todo
     /\ Hit("fs.remove")
     /\ disk' = IF Fires("fs.remove") THEN disk ELSE [disk EXCEPT ![q] = "none"]
     /\ sub' = q
-    /\ UNCHANGED <<c, pc, nxt, sigc, after, round, backup, active, todo, todoR, hapLeft>> /\ NoObs
+    /\ UNCHANGED <<c, pc, nxt, sigc, after, round, backup, active, todo, todoR, wp, hapLeft>> /\ NoObs
 RStoreStore(q) ==
     /\ pc = "restoring" /\ Quiet /\ sub = q /\ q \in todo
     /\ Hit("fs.store")
@@ -243,17 +254,17 @@ RStoreStore(q) ==
        ELSE /\ disk' = [disk EXCEPT ![q] = IF RestoreWrongDirection THEN c.payload[q] ELSE backup[q]]
             /\ todo' = todo \ {q} /\ UNCHANGED <<pc, round>>
     /\ sub' = ""
-    /\ UNCHANGED <<c, nxt, sigc, after, backup, active, todoR, hapLeft>> /\ NoObs
+    /\ UNCHANGED <<c, nxt, sigc, after, backup, active, todoR, wp, hapLeft>> /\ NoObs
 RRemove(q) ==
     /\ pc = "restoring" /\ Quiet /\ sub = "" /\ todo = {} /\ q \in todoR
     /\ Hit("fs.remove")
     /\ IF Fires("fs.remove")
        THEN AfterRestore /\ UNCHANGED <<disk, todoR>>
        ELSE disk' = [disk EXCEPT ![q] = "none"] /\ todoR' = todoR \ {q} /\ UNCHANGED <<pc, round>>
-    /\ UNCHANGED <<c, nxt, sigc, after, backup, active, todo, sub, hapLeft>> /\ NoObs
+    /\ UNCHANGED <<c, nxt, sigc, after, backup, active, todo, sub, wp, hapLeft>> /\ NoObs
 RestoreDone ==
     /\ pc = "restoring" /\ Quiet /\ sub = "" /\ todo = {} /\ todoR = {} /\ AfterRestore
-    /\ UNCHANGED <<c, nxt, sigc, after, disk, backup, active, todo, todoR, sub, hapLeft>> /\ NoHit /\ NoObs
+    /\ UNCHANGED <<c, nxt, sigc, after, disk, backup, active, todo, todoR, sub, wp, hapLeft>> /\ NoHit /\ NoObs
 
 Internal ==
     \/ MethodOK \/ DecodeOK \/ Backup \/ ParseOK \/ CleanDone \/ SaveDone
@@ -274,4 +285,9 @@ DiskAtomic  == "DiskAtomic" \notin viol
 BehavAtomic == "BehavAtomic" \notin viol
 NeverHalf   == "NeverHalf" \notin viol
 OneConfig   == "OneConfig" \notin viol
+
+\* witnesses (expected to be VIOLATED): the antecedents of the clauses are reachable
+WitnessOpenTxnServedByNew == ~(\E k \in DOMAIN p.reqBy : p.reqBy[k] = "new" /\ p.st = "ok")
+WitnessFailedNotExempt    == ~(p.st = "failed" /\ ~p.exempt /\ p.disk0 # << >> /\ closed # {})
+WitnessExempt             == ~(p.exempt /\ pc = "done")
 =============================================================================
